@@ -1,0 +1,9 @@
+//go:build verif
+
+package vhost
+
+import "net/http"
+
+// VerifTransport returns the Transport of the reverse proxy, so that the C06 harness can wrap its
+// DialContext (a gate between the routing decision of a request and its dial).
+func VerifTransport(rp *HTTPReverseProxy) *http.Transport { return rp.transport }
